@@ -48,6 +48,17 @@ fn check_hook(st: &mut Stats, c: &Case) {
         }
     };
     st.evaluations += 1;
+    // absolute check of the unrounded conversion (integer model): hour = (s + frac)/3600 with frac well inside the
+    // second, plus a whole-minute offset, must give exactly second s (+ offset) of the day
+    if ofs.fract() == 0.0 {
+        let sec_of_day = (hour * 3600.0).floor() as i64; // frac is in [0.0005, 0.9995]: floor is exact
+        let t = (sec_of_day + ofs as i64 * 60).rem_euclid(86400) as u32;
+        let want = (t / 3600, (t / 60) % 60, t % 60);
+        st.count("hook.absolute_unrounded_checks");
+        if base != want {
+            st.violate("unrounded_conversion", c, json!({"level": "hook", "prayer": format!("{pr:?}"), "hour": hour, "offset_min": ofs, "got_hms": base, "want_hms": want}));
+        }
+    }
     for mode in [RoundSeconds::NormalRounding, RoundSeconds::SpecialRounding, RoundSeconds::AggressiveRounding] {
         p.round_seconds = mode;
         st.evaluations += 1;
@@ -141,7 +152,9 @@ pub fn run(ctx: &Ctx, st: &mut Stats) {
         if !ctx.mine(s) {
             continue;
         }
-        let hour = (s as f64 + 0.5) / 3600.0;
+        // position inside the second rotates (middle, just after the tick, just before the next tick)
+        let frac = [0.5, 0.0005, 0.9995][((s + s / 60) % 3) as usize];
+        let hour = (s as f64 + frac) / 3600.0;
         for pi in 0..7usize {
             for ofs in &offsets {
                 let c = Case {
@@ -176,6 +189,15 @@ pub fn run(ctx: &Ctx, st: &mut Stats) {
         } else if r.chance(0.3) {
             p = p.with_policy("SeventhOfNightFajrIshaAlways", None);
         }
+        if r.chance(0.3) {
+            p.imsaak_int = Some(X(if r.chance(0.5) { r.int(1, 30) as f64 } else { r.range(0.5, 30.0) }));
+        }
+        if r.chance(0.15) {
+            p.fajr_int = Some(X(r.range(1.0, 120.0)));
+        }
+        if r.chance(0.15) {
+            p.isha_int = Some(X(r.range(1.0, 120.0)));
+        }
         if r.chance(0.5) {
             let mut m = [X(0.0); 7];
             for x in m.iter_mut() {
@@ -198,5 +220,5 @@ pub fn run(ctx: &Ctx, st: &mut Stats) {
             st.sample(|| json!(c));
         }
     }
-    st.extra.insert("rule".into(), json!("level 1: every second of the day (hour=(s+0.5)/3600) x 7 prayer keys x minute offsets {0,+-1500,+-1440,-0.5,59,seeded} x 3 modes through the library's own hour->clock function, expected = integer rounding model applied to the mode-None output of the same call (distinct by construction; the Imsaak key is observed but not judged); level 2: seeded real inputs through the public API, each mode against mode None (distinct by input hash)"));
+    st.extra.insert("rule".into(), json!("level 1: every second of the day (hour=(s+f)/3600, f rotating over 0.5, 0.0005, 0.9995; the unrounded output is also checked absolutely against the integer second) x 7 prayer keys x minute offsets {0,+-1500,+-1440,-0.5,59,seeded} x 3 modes through the library's own hour->clock function, expected = integer rounding model applied to the mode-None output of the same call (distinct by construction; the Imsaak key is observed but not judged); level 2: seeded real inputs through the public API, each mode against mode None (distinct by input hash)"));
 }
